@@ -51,7 +51,8 @@ def plan(tier, seed):
 
 
 def thresholds(tier):
-  t = {"mutants_judged": 800, "legal_elaborations": 400, "kinds_with_5": len(KINDS) - 2, "elaborations": 3000}
+  t = {"mutants_judged": 800, "legal_elaborations": 400, "kinds_with_5": len(KINDS) - 2, "elaborations": 3000, "holey_defects_judged": 80,
+       "holey_list_designs_with_leading_hole": 60}
   if tier == "thorough":
     t.update({"mutants_judged": 15000, "legal_elaborations": 8000, "elaborations": 60000})
   return t
@@ -384,7 +385,98 @@ def outcome(design, rng, perm):
     G.unload(mod)
 
 
+def gen_holey(rng):
+  """a parent whose hardware sits in LISTS WITH HOLES ( [None, Wire(8), ...], holes first / inside / last, also nested lists and
+  lists of sub-components ); one defect whose net touches only objects of such lists - or none (control).  -> source, defect"""
+  n = rng.randrange(2, 5)
+  holes = rng.choice([[0], [0], [n], [1], [0, n + 1], [0, 1]])
+  def with_holes(items):
+    out = list(items)
+    for h in sorted(holes): out.insert(min(h, len(out)), "None")
+    return out
+  idx = [i for i, x in enumerate(with_holes(["x"] * n)) if x != "None"]       # positions of the real elements
+  a, b = rng.sample(idx, 2) if len(idx) >= 2 else (idx[0], idx[0])
+  c = next((i for i in idx if i not in (a, b)), None)
+  comp = rng.random() < 0.4
+  defect = rng.choice(["none", "none", "no-writer", "loop", "two-blocks", "block-and-net", "two-nets"] if not comp else
+                      ["none", "outport-to-sibling-outport", "two-parents-drive-child-input", "child-input-undriven-net"])
+  L = ["from pymtl3 import *", "class HSrc(Component):", "  def construct(s):", "    s.i = InPort(8); s.out = OutPort(8)", "    @update", "    def up_src():", "      s.out @= s.i + 1"]
+  L += ["class HTop(Component):", "  def construct(s):", "    s.in_ = InPort(8); s.o = OutPort(8)"]
+  if not comp:
+    el = with_holes(["Wire(8)"] * n)
+    L.append("    s.w = [" + ", ".join(el) + "]" if rng.random() < 0.7 else "    s.w = [" + ", ".join(el) + "]; s.w2 = [None, s.w]" if False else "    s.w = [" + ", ".join(el) + "]")
+    others = [i for i in idx if i not in (a, b)]
+    def drive(i): return ["    @update", f"    def up_w{i}():", f"      s.w[{i}] @= s.in_ + {i}"]
+    if defect == "none":
+      L += drive(a) + [f"    s.w[{b}] //= s.w[{a}]", f"    s.o //= s.w[{b}]"]
+      for i in others: L += drive(i)
+      exp = None
+    elif defect == "no-writer":
+      L += [f"    s.w[{a}] //= s.w[{b}]", "    s.o //= s.in_"]; exp = {"NoWriterError"}
+      for i in others: L += drive(i)
+    elif defect == "loop":
+      if c is None: L += [f"    s.w[{a}] //= s.w[{b}]", f"    s.w[{b}] //= s.w[{a}]"]
+      else: L += [f"    s.w[{a}] //= s.w[{b}]", f"    s.w[{b}] //= s.w[{c}]", f"    s.w[{c}] //= s.w[{a}]"]
+      L += ["    s.o //= s.in_"]; exp = {"InvalidConnectionError", "NoWriterError"}
+    elif defect == "two-blocks":
+      L += drive(a) + ["    @update", "    def up_again():", f"      s.w[{a}] @= s.in_"] + [f"    s.o //= s.w[{a}]"]; exp = {"MultiWriterError"}
+      for i in [b] + others: L += drive(i)
+    elif defect == "block-and-net":
+      L += drive(a) + drive(b) + [f"    s.w[{a}] //= s.w[{b}]", "    s.o //= s.in_"]; exp = {"MultiWriterError"}
+      for i in others: L += drive(i)
+    else:
+      if c is None: return gen_holey(rng)
+      L += drive(a) + drive(b) + [f"    s.w[{c}] //= s.w[{a}]", f"    s.w[{c}] //= s.w[{b}]", "    s.o //= s.in_"]; exp = {"MultiWriterError"}
+  else:
+    el = with_holes(["HSrc()"] * n)
+    L.append("    s.c = [" + ", ".join(el) + "]")
+    if defect == "none":
+      L += [f"    s.c[{i}].i //= s.in_" for i in idx] + [f"    s.o //= s.c[{a}].out"]; exp = None
+    elif defect == "outport-to-sibling-outport":
+      L += [f"    s.c[{i}].i //= s.in_" for i in idx] + [f"    s.c[{a}].out //= s.c[{b}].out", "    s.o //= s.in_"]; exp = {"MultiWriterError", "SignalTypeError"}
+    elif defect == "two-parents-drive-child-input":
+      L += [f"    s.c[{i}].i //= s.in_" for i in idx if i != a] + ["    @update", "    def up_p():", f"      s.c[{a}].i @= s.in_", "    @update", "    def up_q():", f"      s.c[{a}].i @= s.in_ + 1",
+                                                              "    s.o //= s.in_"]; exp = {"MultiWriterError"}
+    else:
+      L += [f"    s.c[{i}].i //= s.in_" for i in idx if i not in (a, b)] + [f"    s.c[{a}].i //= s.c[{b}].i", "    s.o //= s.in_"]; exp = {"NoWriterError"}
+  return "\n".join(L) + "\n", defect, exp, {"holes_at": holes, "elements": n, "components": comp}
+
+
+def run_holey(sh, case):
+  from pymtl3 import DefaultPassGroup
+  rng = sh.rng("holey", case)
+  src, defect, exp, info = gen_holey(rng)
+  mod = G.load_source(src, "c09h")
+  try:
+    try:
+      top = mod.HTop(); top.elaborate(); oc = None; msg = ""
+    except Exception as e:
+      oc, msg = type(e).__name__, str(e)[:200]
+    sh.count("elaborations"); sh.count("holey_list_designs"); sh.count("holey:" + defect)
+    if info["holes_at"][0] == 0: sh.count("holey_list_designs_with_leading_hole")
+    ctx = dict(info, defect=defect, design_source=src)
+    if exp is None:
+      if oc is not None:
+        sh.violation("defect-free-design-rejected", dict(ctx, outcome=oc, message=msg), case=("holey", case)); return
+      # the legal control also has to WORK: the value travels through the objects of the holey list
+      top.apply(DefaultPassGroup()); top.sim_reset(); top.in_ @= 9; top.sim_eval_combinational()
+      want = {False: None, True: 10}[info["components"]]
+      got = int(top.o)
+      if info["components"] and got != 10 or (not info["components"] and not (9 <= got <= 9 + 12)):
+        sh.violation("legal-holey-list-design-computes-a-wrong-value", dict(ctx, got=got), case=("holey", case))
+      return
+    sh.count("holey_defects_judged")
+    if oc is None:
+      sh.violation("defective-design-elaborated-without-error", dict(ctx, expected=sorted(exp)), case=("holey", case))
+    elif oc not in exp:
+      sh.violation("defective-design-rejected-with-unrelated-error", dict(ctx, expected=sorted(exp), got=oc, message=msg), case=("holey", case))
+  finally:
+    G.unload(mod)
+
+
 def run_shard(sh):
+  for case in range(12 if sh.tier == "quick" else 200):
+    run_holey(sh, sh.idx * 1000 + case)
   per_kind = {}
   for case in range(sh.params["designs"]):
     rng = sh.rng("design", case)
